@@ -66,17 +66,24 @@ class SendSock:
 
 
 class VSelect:
-    def __init__(self, conn, sock):
+    def __init__(self, conn, sock, others=()):
         self.conn = conn
         self.sock = sock
         self.finish = False
+        self.others = list(others)        # (conn, sock) pairs that are simply writable while they have bytes
 
     def coop_select(self, r, w, x, t):
+        ww = []
         if self.sock in w and len(self.conn.write_buffer) > 0:
-            return True, ([], [self.sock], [])
+            ww.append(self.sock)
+        for (oc, osock) in self.others:
+            if osock in w and len(oc.write_buffer) > 0:
+                ww.append(osock)
+        if ww:
+            return True, ([], ww, [])
         if WORLD.pipe:
             return True, ([r[0]], [], [])            # interrupt pipe readable (demand_attention)
-        if self.finish and len(self.conn.write_buffer) == 0:
+        if self.finish and len(self.conn.write_buffer) == 0 and all(len(oc.write_buffer) == 0 for (oc, _s) in self.others):
             return True, EndLoop()
         if self.finish:
             return True, ([], [], [])                # wakeup_interval timeout
@@ -135,8 +142,22 @@ def fifo(k1: int, sched: List[int], tgt: List[int]) -> bool:
         q.put = put
         s = SendSock([kv])
         n._add_peer_connection(c, s, B.PEER_TRANSPORT_TCP)
+        others = []
+        c2 = s2 = None
+        second = b""
+        if P.get("second"):
+            # a second connection with bytes already buffered; its first send fails softly in the same select round
+            c2 = PeerConnection("10.0.1.2", 2, B.PEER_RECV, interrupt_fileno=n.interrupt_write)
+            c2.state = B.PEER_READY
+            c2.write_lock = coop.CoopLock()
+            s2 = SendSock([-1])
+            s2._fn = 78
+            n._add_peer_connection(c2, s2, B.PEER_TRANSPORT_TCP)
+            second = _msgs(["avp", "plain"])[0].as_bytes() + _msgs(["plain"])[0].as_bytes()
+            c2._write_buffer = second
+            others.append((c2, s2))
         WORLD.pipe.clear()
-        vs = VSelect(c, s)
+        vs = VSelect(c, s, others)
         HC.__globals__["select"] = vs
         th_io = TH()
 
@@ -183,10 +204,10 @@ def fifo(k1: int, sched: List[int], tgt: List[int]) -> bool:
         threads = [producer(gi) for gi in range(len(groups))] + [writer(), io()]
         coop.run_choices(threads, choose, len(sched), max_steps=1500)
         expected = b"".join(m.as_bytes() for m in put_order if not isinstance(m, BadMessage))
-        obs = (s.log, len(c.write_buffer), c.state)
+        obs = (s.log, len(c.write_buffer), c.state, s2.log if s2 is not None else b"")
     except Exception as e:
         return hx.fail(inputs, "raised %s: %s" % (type(e).__name__, str(e)[:100]))
-    return hx.check(inputs, obs, (expected, 0, B.PEER_READY), "bytes handed to the transport != FIFO concatenation of the encodable queued messages, each once")
+    return hx.check(inputs, obs, (expected, 0, B.PEER_READY, second), "bytes handed to the transport != FIFO concatenation of the encodable queued messages, each once (per connection)")
 
 
 def specs(tier, seed, carve):
@@ -196,6 +217,8 @@ def specs(tier, seed, carve):
     if not q:
         scen["2x2bad"] = [["plain", "bad"], ["avp", "plain"]]
         scen["1x3"] = [["plain", "avp", "plain"]]
+    out.append(dict(id="fifo/1x2+second/p1", fn="fifo", params={"producers": [["plain", "avp"]], "slots": 1, "maxstep": 90, "ks": [-1, 0, 1, 20, 21], "second": True}, timeout=1500,
+                    bound="as 1x2, plus a second connection with buffered bytes that is writable in the same select rounds and whose first send fails softly; 1 preemption"))
     for name, groups in scen.items():
         for slots in ((1,) if q else (1, 2)):
             out.append(dict(id="fifo/%s/p%d" % (name, slots), fn="fifo", params={"producers": groups, "slots": slots, "maxstep": 90, "ks": ([-1, -3, 0, 1, 20, 21] if slots == 1 else [-1, 0, 1, 21]) if (q or slots > 1) else None}, timeout=1500 if q else 8000,
